@@ -138,6 +138,10 @@ class Sched:
     def exits_now(self, kernel, point, running):
         return []
 
+    def stops_now(self, kernel, point, running):
+        """Children that are stopped (SIGSTOP/SIGTSTP) and continued around this point."""
+        return []
+
     def deliver_now(self, kernel, point):
         return True
 
@@ -307,6 +311,19 @@ class Kernel:
         self.points += 1
         run = self.running()
         if run:
+            for p in self.sched.stops_now(self, name, run):
+                # job control: the child stops (the parent gets SIGCHLD: CPython does not set SA_NOCLDSTOP),
+                # the handler runs, then somebody continues the child
+                p.stopped = True
+                p.stop_reported = False
+                self.pending = True
+                self.ev("stop", p.pid, p.name)
+                self.deliver()
+                p.stopped = False
+                self.pending = True          # SIGCHLD is also sent when a stopped child continues
+                self.ev("cont", p.pid, p.name)
+                self.deliver()
+            run = self.running()
             for p in self.sched.exits_now(self, name, run):
                 self.exit_child(p)
         if self.pending and self.handler is not None:
@@ -333,6 +350,11 @@ class Kernel:
                     p.t_reap = e[1]
                     p.reaped_by = e[4]
                     return p.pid, p.status
+            if flags & os.WUNTRACED:
+                for p in live:
+                    if getattr(p, "stopped", False) and not getattr(p, "stop_reported", True):
+                        p.stop_reported = True
+                        return p.pid, (int(signal.SIGSTOP) << 8) | 0x7F       # WIFSTOPPED status
             if flags & os.WNOHANG:
                 return 0, 0
             # blocking wait: some matching running child exits now
